@@ -173,6 +173,48 @@ def step (line : String) : String :=
       (match st.err with
        | some e => Json.mkObj [("raises", e)]
        | none => Json.mkObj [("ok", A.nodeToJson out), ("replaced", Json.bool st.replaced)]).compress
+    | .ok "cli_sync" =>
+      let kindArgs (k : String) : Cli.KindArgs :=
+        match j.getObjVal? k with
+        | .ok kj =>
+          { files := match kj.getObjVal? "files" with
+              | .ok (Json.arr a) => some (a.toList.map fun b => (b.getBool?).toOption.getD false)
+              | _ => none,
+            named := (kj.getObjValAs? Bool "named").toOption.getD false }
+        | _ => {}
+      let truth : Cli.Kind := match (j.getObjValAs? String "truth").toOption.getD "" with
+        | "argparse_function" => .argparse | "class" => .cls | _ => .func
+      let x : Cli.SyncArgs := { truth := truth, a := kindArgs "a", c := kindArgs "c", f := kindArgs "f" }
+      let show_ : Cli.Decision → String
+        | .usageError => "usage-error" | .accept => "accept" | .internalError => "internal-error"
+      (Json.mkObj [("ok", Json.str (show_ (Cli.syncDecide x))), ("old", Json.str (show_ (Cli.syncDecideOld x)))]).compress
+    | .ok "cli_other" =>
+      let b (k : String) := (j.getObjValAs? Bool k).toOption.getD false
+      let sp := match Cli.syncPropsDecide (b "input_exists") (b "output_exists") with
+        | .usageError => "usage-error" | .accept => "accept" | .internalError => "internal-error"
+      let g := match Cli.genDecide (b "output_exists") with | .refuse => "refuse" | .accept => "accept"
+      (Json.mkObj [("ok", Json.mkObj [("sync_properties", Json.str sp), ("gen", Json.str g)])]).compress
+    | .ok "fs_targets" =>
+      -- files: [[pathId, content|null]], targets: [{p, tmp, a, b}], fault: null | [k, i]
+      let files : List (Nat × Option (List Char)) := match j.getObjVal? "files" with
+        | .ok (Json.arr a) => a.toList.filterMap fun kv => match kv with
+          | Json.arr #[Json.num n, Json.str c] => some (n.mantissa.toNat, some c.toList)
+          | Json.arr #[Json.num n, Json.null] => some (n.mantissa.toNat, none)
+          | _ => none
+        | _ => []
+      let fs0 : FsSync.FS := fun q => ((files.find? (·.1 == q)).map (·.2)).getD none
+      let nat (o : Json) (k : String) : Nat := (o.getObjValAs? Nat k).toOption.getD 0
+      let str (o : Json) (k : String) : List Char := ((o.getObjValAs? String k).toOption.getD "").toList
+      let ts : List FsSync.Target := match j.getObjVal? "targets" with
+        | .ok (Json.arr a) => a.toList.map fun o => { tmp := nat o "tmp", p := nat o "p", a := str o "a", b := str o "b" }
+        | _ => []
+      let fault : Option (Nat × Nat) := match j.getObjVal? "fault" with
+        | .ok (Json.arr #[Json.num k, Json.num i]) => some (k.mantissa.toNat, i.mantissa.toNat)
+        | _ => none
+      let fs' := FsSync.runTargets fs0 ts fault
+      let paths := (files.map (·.1) ++ ts.flatMap fun t => [t.p, t.tmp]).eraseDups
+      (Json.mkObj [("ok", Json.arr (paths.map fun q => Json.arr #[Json.num (JsonNumber.fromNat q),
+          match fs' q with | some c => Json.str (String.ofList c) | none => Json.null]).toArray)]).compress
     | _ => "{\"bad\":\"op\"}"
 
 partial def loop (h : IO.FS.Stream) : IO Unit := do
